@@ -71,7 +71,13 @@ class C01(runner.Prop):
         dicty = st.fixed_dictionaries({
             't': gen.tree_descs(ml, kinds=('dict', 'od', 'dd', 'deque', 'list', 'cg', 'cn')),
             'cfg': gen.configs()})
-        return st.one_of(general, general, dicty)
+        # stratum: deep nesting up to (just below) the depth limit, every wrapper kind
+        wrap_kinds = st.lists(st.sampled_from(['list', 'tuple', 'dict', 'od', 'dd', 'deque', 'nt', 'cg', 'ci']), min_size=1, max_size=4)
+        deep = st.fixed_dictionaries({
+            't': st.tuples(wrap_kinds, st.sampled_from([20, 200, 700, 985, 990]), gen.tree_descs(6, max_depth=4)).map(
+                lambda t: ['wrap', ','.join(t[0]), t[1], t[2]]),
+            'cfg': gen.configs(predicates=['none', 'never', 'leaf_even', 'is_nt2'])})
+        return st.one_of(general, general, general, dicty, dicty, deep)
 
     def check_case(self, case, ctx):
         cfg = gen.sound_cfg(case)
@@ -85,6 +91,8 @@ class C01(runner.Prop):
             ctx.nontrivial(spec.num_nodes > spec.num_leaves and n >= 2)
             acc = set()
             classes_of(case['t'], acc)
+            if case['t'][0] == 'wrap':
+                acc.add('deep_nesting>=200' if case['t'][2] >= 200 else 'deep_nesting')
             if depth_of(case['t']) >= 5:
                 acc.add('depth>=4')
             if cfg['pred'] != 'none' and any(
